@@ -525,6 +525,24 @@ func c09Line(work, line string, yml bool, tag string, lineNo int, r *rng, every,
 			}
 			mass := make([]float64, cnt)
 			diff := make([]float64, cnt)
+			// raw inputs of the supply terms for SupplyModel (the model recomputes MASS / DIFF / maxup from these)
+			supN := cnt
+			if supN > 10 {
+				supN = 10
+			}
+			supE := make([]float64, supN)
+			for index := 0; index < supN; index++ {
+				supE[index] = math.Exp(pre.WG[0][index] * 10)
+			}
+			mxClass := 3
+			switch ct {
+			case hermes.ORH, hermes.WRA, hermes.SE, hermes.LET, hermes.WCA, hermes.ONI, hermes.CEL, hermes.GAR, hermes.CAR, hermes.PMK:
+				mxClass = 0
+			case hermes.SM:
+				mxClass = 1
+			case hermes.ZR:
+				mxClass = 2
+			}
 			for index := 0; index < cnt; index++ {
 				if index+1 < 11 {
 					var wrad float64
@@ -720,6 +738,9 @@ func c09Line(work, line string, yml bool, tag string, lineNo int, r *rng, every,
 				"h_temp": hx(temp), "h_mintmp": hx(pre.MINTMP), "h_maxamax": hx(pre.MAXAMAX), "h_co2": hx(pre.CO2KONZ), "h_meth": pre.CO2METH,
 				"h_temptyp": int(reflect.ValueOf(lPre).FieldByName("temptyp").Int()), "h_lai": hx(radiaLAI), "h_rdn": hx(rrec.RDN),
 				"h_dle0": hx(radiaDLE0), "h_o": radiaOracles(&rrec), "h_o_amax": hx(rrec.AMAX), "h_o_effe": hx(rrec.EFFE),
+				// supply terms (SupplyModel): raw inputs of MASS / DIFF for the first min(cnt, 10) layers, the class and inputs of maxup
+				"s_n": supN, "s_tp": hxs(pre.TP[:supN]), "s_c1": hxs(pre.C1[:supN]), "s_wg": hxs(pre.WG[0][:supN]), "s_ad": hxs(pre.AD[:supN]), "s_e": hxs(supE),
+				"s_wud": hxs(g.WUDICH[:supN]), "s_class": mxClass, "s_phyllo": hx(g.PHYLLO), "s_tendsum": hx(tendsum),
 				// reduk
 				"gehob": hx(pre.GEHOB), "gehmin": hx(g.GEHMIN), "ngefkt1": pre.NGEFKT == 1, "earg": hx(eArg), "e": hx(eVal), "reduk0": hx(pre.REDUK), "o_reduk": hx(g.REDUK),
 				// organs
